@@ -25,6 +25,8 @@ VERIF = os.path.dirname(os.path.dirname(os.path.abspath(__file__)))
 REPO = os.environ.get("H2V_REPO", "/repo")
 CACHE = os.environ.get("H2V_CACHE", "/var/tmp/h2verif-cache")
 NSLOTS = int(os.environ.get("H2V_SLOTS", "4"))
+KANI_DIR = os.environ.get("H2V_KANI_DIR", os.path.join(VERIF, "kani"))
+VSPEC_DIR = os.environ.get("H2V_VSPEC_DIR", os.path.join(VERIF, "vspec"))
 
 
 def sh(cmd, **kw):
@@ -85,7 +87,7 @@ def prepare(slot_dir, repo=None):
         "--exclude", "/tests", "--exclude", "/util", "--exclude", "/fuzz", "--exclude", "/benches",
         "--exclude", "/examples", "--exclude", "/fixtures",
         repo + "/", dst + "/"])
-    sh(["rsync", "-a", "--checksum", "--delete", os.path.join(VERIF, "kani") + "/", kdst + "/"])
+    sh(["rsync", "-a", "--checksum", "--delete", "--exclude", "*.md", KANI_DIR + "/", kdst + "/"])
 
     added = []
     # --- A1 Cargo.toml
